@@ -4,7 +4,8 @@
     for the true Gamma function alike; [Beta_fn Gam a b = Gam a * Gam b / Gam (a + b)] is how [functions::beta]
     is defined.  The model [Model/Dists.v] is the repaired code (defects D3-D9 and two overflow repairs).
     Claim: PARTIAL — see tools/props.d/C02.json (not proved: moments/mass as integrals for Normal, Gamma, Beta,
-    ChiSquared, T, Gumbel; the multivariate normal's inverse and determinant are inputs). *)
+    ChiSquared, T, Gumbel).  The multivariate normal is stated twice: section 8 with the inverse and determinant as
+    inputs, section 9 END TO END, composed with C01 / C11 (the constructor computes them with those properties' models). *)
 From Coq Require Import Reals List ZArith Lra Lia.
 From Coquelicot Require Import Coquelicot.
 From Compute Require Import Base.Ops Model.Dists Model.MatMul Model.MVN Spec.Densities Proofs.C02 Proofs.C02_integrals Proofs.C02_mvn.
@@ -513,3 +514,118 @@ Theorem C02_model_is_source_pmf_dispatch :
     | _ => None
     end.
 Proof. exact @tiea_pmf_dispatch. Qed.
+
+(** ** 9. multivariate normal END TO END, composed with C01 / C11 (model: Model/MVNNew.v).  [MVN::new] computes the
+       Cholesky factor ([Matrix::cholesky]), the inverse ([Matrix::inv]: pivoted LU + one solve per column of the
+       identity) and the determinant ([Matrix::det]: a second pivoted LU) with the executable models of C01 / C11 —
+       the same terms that run bit for bit against the crate in the end-to-end correspondence cases.  No hypothesis
+       on an inner routine is left.  For EVERY symmetric positive definite covariance [cov] (flat row-major, order n):
+       the constructor returns; the cached inverse is THE inverse (two-sided: cov.Sinv = I = Sinv.cov); the cached
+       determinant is THE determinant of cov ([Spec.Determinant.determinant], cofactor expansion) and is positive;
+       [pdf] is the textbook density (2 pi)^(-n/2) det^(-1/2) exp(-(x-mu)^T Sinv (x-mu)/2) ([Spec.MVNDensity.mvn_density])
+       and [ln_pdf] is its logarithm.  Positive definite is written out: v^T cov v > 0 for every v <> 0. *)
+From Compute Require Import Base.ListMat Model.Subst Model.MVNNew Spec.Factor Spec.Solve Spec.Determinant Spec.MVNDensity.
+From Compute Require Proofs.Compose_spd Proofs.C02_compose.
+
+Theorem C02_mvn_new_accepts_spd_composed :
+  forall (n : nat) (cov mean : list R),
+    (0 < n)%nat -> length cov = (n * n)%nat -> length mean = n ->
+    symmetric cov n ->
+    (forall v : nat -> R, (exists i, (i < n)%nat /\ v i <> 0) ->
+       0 < rsum (fun p => rsum (fun q => v p * getm cov n p q * v q) n) n) ->
+    exists Sinv L : list R,
+      mvn_new RO mean {| nr := n; nc := n; dat := cov |}
+        = Some {| mvn_mean := mean; mvn_cov := {| nr := n; nc := n; dat := cov |};
+                  mvn_cinv := {| nr := n; nc := n; dat := Sinv |};
+                  mvn_cdet := determinant (unflatten cov n n);
+                  mvn_chol := {| nr := n; nc := n; dat := L |} |} /\
+      (length Sinv = (n * n)%nat /\
+       (forall i j, (i < n)%nat -> (j < n)%nat -> mmul cov Sinv n i j = delta i j) /\
+       (forall i j, (i < n)%nat -> (j < n)%nat -> mmul Sinv cov n i j = delta i j)) /\
+      0 < determinant (unflatten cov n n) /\
+      (length L = (n * n)%nat /\ lower_triangular L n /\ (forall i, (i < n)%nat -> 0 < getm L n i i) /\
+       forall i j, (i < n)%nat -> (j < n)%nat -> rsum (fun k => getm L n i k * getm L n j k) n = getm cov n i j).
+Proof. exact Proofs.C02_compose.mvn_new_spd. Qed.
+
+Theorem C02_mvn_pdf_textbook_composed :
+  forall (n : nat) (cov mean x : list R),
+    (0 < n)%nat -> (Z.of_nat n < 2 ^ 64)%Z -> length cov = (n * n)%nat -> length mean = n -> length x = n ->
+    symmetric cov n ->
+    (forall v : nat -> R, (exists i, (i < n)%nat /\ v i <> 0) ->
+       0 < rsum (fun p => rsum (fun q => v p * getm cov n p q * v q) n) n) ->
+    exists Sinv : list R,
+      (length Sinv = (n * n)%nat /\
+       (forall i j, (i < n)%nat -> (j < n)%nat -> mmul cov Sinv n i j = delta i j) /\
+       (forall i j, (i < n)%nat -> (j < n)%nat -> mmul Sinv cov n i j = delta i j)) /\
+      0 < determinant (unflatten cov n n) /\
+      mvn_pdf_full RO mean {| nr := n; nc := n; dat := cov |} x
+        = Some (mvn_density n Sinv (determinant (unflatten cov n n)) mean x) /\
+      mvn_ln_pdf_full RO mean {| nr := n; nc := n; dat := cov |} x
+        = Some (ln (mvn_density n Sinv (determinant (unflatten cov n n)) mean x)).
+Proof. exact Proofs.C02_compose.mvn_pdf_full_textbook. Qed.
+
+(** "THE inverse": a left inverse X and a right inverse Y of the same matrix have the same entries, so the matrix
+    [Sinv] of the two theorems above is determined by [cov] *)
+Theorem C02_mvn_precision_unique_composed :
+  forall (n : nat) (cov X Y : list R),
+    (forall i j, (i < n)%nat -> (j < n)%nat -> mmul X cov n i j = delta i j) ->
+    (forall i j, (i < n)%nat -> (j < n)%nat -> mmul cov Y n i j = delta i j) ->
+    forall i j, (i < n)%nat -> (j < n)%nat -> getm Y n i j = getm X n i j.
+Proof. exact Proofs.C02_compose.mvn_precision_unique. Qed.
+
+(** the two ways of writing the density: the code's [exp(-q/2) / sqrt((2 pi)^n d)] and the textbook's *)
+Theorem C02_mvn_density_forms_composed :
+  forall (n : nat) (q d : R),
+    0 < d ->
+    exp (- q / 2) / R_sqrt.sqrt ((2 * PI) ^ n * d) = Rpower (2 * PI) (- INR n / 2) * Rpower d (- 1 / 2) * exp (- q / 2).
+Proof. exact Proofs.C02_compose.density_forms. Qed.
+
+(** rejection (the constructor panics): a mirrored pair further apart than the relative tolerance 2^-52 max(|x|,|y|) of
+    [Matrix::is_symmetric]; a mean of the wrong length; a diagonal entry <= 0; a symmetric matrix that is not positive
+    definite (a Cholesky pivot fails [assert!(d > 0.)]) *)
+Theorem C02_mvn_new_rejects_composed :
+  forall (n : nat) (cov mean : list R),
+    (n * n)%nat = length cov ->
+    ((exists i j, (i < n)%nat /\ (j < n)%nat /\
+        eps RO * Rmax (Rabs (getm cov n i j)) (Rabs (getm cov n j i)) < Rabs (getm cov n i j - getm cov n j i)) \/
+     length mean <> n \/
+     (exists i, (i < n)%nat /\ getm cov n i i <= 0) \/
+     (symmetric cov n /\
+      ~ (forall v : nat -> R, (exists i, (i < n)%nat /\ v i <> 0) ->
+           0 < rsum (fun p => rsum (fun q => v p * getm cov n p q * v q) n) n))) ->
+    mvn_new RO mean {| nr := n; nc := n; dat := cov |} = None.
+Proof. exact Proofs.C02_compose.mvn_new_rejects. Qed.
+
+(** among the exactly symmetric covariances the constructor returns EXACTLY on the positive definite ones *)
+Theorem C02_mvn_new_iff_spd_composed :
+  forall (n : nat) (cov mean : list R),
+    (0 < n)%nat -> length cov = (n * n)%nat -> length mean = n -> symmetric cov n ->
+    ((exists d, mvn_new RO mean {| nr := n; nc := n; dat := cov |} = Some d) <->
+     (forall v : nat -> R, (exists i, (i < n)%nat /\ v i <> 0) ->
+        0 < rsum (fun p => rsum (fun q => v p * getm cov n p q * v q) n) n)).
+Proof. exact Proofs.C02_compose.mvn_new_iff_spd. Qed.
+
+Theorem C02_mvn_rejects_point_composed :
+  forall (cov : matrix) (mean x : list R),
+    length x <> length mean ->
+    mvn_pdf_full RO mean cov x = None /\ mvn_ln_pdf_full RO mean cov x = None.
+Proof. exact Proofs.C02_compose.mvn_full_rejects_point. Qed.
+
+(** every carrier (binary64 included): what a constructor that returned has cached — the mean and covariance it was given,
+    and exactly what [Matrix::cholesky], [Matrix::inv], [Matrix::det] (the models of C11 / C01) return on that covariance,
+    which is square and as wide as the mean is long *)
+Theorem C02_mvn_new_caches_composed :
+  forall (T : Type) (O : Ops T) (mean : list T) (c : matrix) (d : mvn T),
+    mvn_new O mean c = Some d ->
+    mvn_mean d = mean /\ mvn_cov d = c /\ Model.Cholesky.matrix_cholesky O c = Some (mvn_chol d) /\
+    Model.SolveInst.mat_inv O c = Some (mvn_cinv d) /\ Model.LU.matrix_det O c = Some (mvn_cdet d) /\
+    nr c = nc c /\ length mean = nc c.
+Proof. exact @Proofs.C02_compose.mvn_new_fields. Qed.
+
+(** satisfiable, non-trivially: Sigma = [[2,1],[1,2]] (det 3, inverse [[2,-1],[-1,2]]/3), mu = 0, x = (1,0) *)
+Example C02_example_mvn_composed :
+  (symmetric [2; 1; 1; 2] 2 /\
+   forall v : nat -> R, (exists i, (i < 2)%nat /\ v i <> 0) ->
+     0 < rsum (fun p => rsum (fun q => v p * getm [2; 1; 1; 2] 2 p q * v q) 2) 2) /\
+  mvn_pdf_full RO [0; 0] {| nr := 2; nc := 2; dat := [2; 1; 1; 2] |} [1; 0] = Some (exp (- (1 / 3)) / (2 * PI * R_sqrt.sqrt 3)).
+Proof. exact (conj Proofs.C02_compose.example_cov_spd Proofs.C02_compose.mvn_full_example). Qed.
